@@ -10,6 +10,7 @@ import (
 	"net/http"
 	"runtime"
 	"strings"
+	"time"
 
 	connect "github.com/bufbuild/connect-go"
 	"google.golang.org/protobuf/proto"
@@ -444,6 +445,9 @@ func c09Hostile(run *ev.Run) {
 			}
 		}
 	}
+	if !run.Replaying() || strings.Contains(run.ReplayKey(), "/declared-exact/") {
+		c09DeclaredExact(run)
+	}
 	// A declared Content-Length that has nothing to do with the (small, valid)
 	// body must not size anything: with a read limit N the receiver stays under
 	// the same allocation bound, and it never panics.
@@ -655,3 +659,82 @@ func (c *rleCompressor) Close() error {
 	return err
 }
 func (c *rleCompressor) Reset(w io.Writer) { c.w, c.n = w, 0 }
+
+// c09DeclaredExact: the limit is about the size of a message, not about the
+// size of the body that carries it. A request that truthfully declares its
+// Content-Length and carries one well-compressed message whose decompressed
+// size is within the limit (but larger than the whole body) must be accepted;
+// one whose decompressed size exceeds the limit must be rejected.
+func c09DeclaredExact(run *ev.Run) {
+	for _, N := range []int{2048, 16384} {
+		for _, rel := range []string{"within", "over"} {
+			size := N - 200
+			if rel == "over" {
+				size = N + 200
+			}
+			m := gen.New(uint64(900+N), size, true)
+			raw, _ := proto.Marshal(m)
+			gz := refcodec.GzipCompress(raw)
+			if len(gz)+5 >= len(raw) || (rel == "within" && len(raw) > N) || (rel == "over" && len(raw) <= N) {
+				run.Inconclusive("declared-exact: the generated message does not have the intended sizes")
+				continue
+			}
+			for _, protocol := range svc.Protocols {
+				for _, kind := range []svc.Kind{svc.Unary, svc.ClientStream, svc.Bidi} {
+					for _, declare := range []bool{true, false} {
+						key := fmt.Sprintf("c09/declared-exact/N=%d/%s/%s/%s/declared=%v", N, rel, protocol, kind, declare)
+						if !run.Want(key) {
+							continue
+						}
+						stream := !(protocol == "connect" && kind == svc.Unary)
+						hdr := http.Header{"Content-Type": {contentType(protocol, "proto", kind)}}
+						body := gz
+						switch {
+						case !stream:
+							hdr.Set("Content-Encoding", "gzip")
+						case protocol == "connect":
+							hdr.Set("Connect-Content-Encoding", "gzip")
+							body = refcodec.AppendFrame(nil, 1, gz)
+						default:
+							hdr.Set("Grpc-Encoding", "gzip")
+							hdr.Set("Te", "trailers")
+							body = refcodec.AppendFrame(nil, 1, gz)
+						}
+						reg := svc.NewRegistry()
+						hs := svc.Handlers(reg, connect.WithReadMaxBytes(N), connect.WithCompressMinBytes(1<<30))
+						call := reg.New("de", drainProgram())
+						hdr.Set(wire.CallHeader, call.ID)
+						rw := wire.NewRecorder()
+						req := wire.ServerRequest(context.Background(), "POST", kind.Path(), hdr, &wire.ScriptedBody{Data: body}, 2)
+						if declare {
+							req.ContentLength = int64(len(body))
+							req.Header.Set("Content-Length", fmt.Sprint(len(body)))
+						}
+						var panicked any
+						ok, _ := watchdog(20*time.Second, func() {
+							defer func() { panicked = recover() }()
+							hs[kind].ServeHTTP(rw, req)
+						})
+						run.Eval(fmt.Sprintf("declared-exact|%d|%s|%s|%s|%v", N, rel, protocol, kind, declare))
+						run.Count("limit.declared_exact", 1)
+						detail := map[string]any{"read_limit": N, "message_bytes": len(raw), "body_bytes": len(body), "content_length_declared": declare, "protocol": protocol, "kind": kind.String()}
+						if !ok || panicked != nil {
+							run.Violation(key+"/crash", fmt.Sprintf("ServeHTTP hung or panicked: %v", panicked), detail)
+							continue
+						}
+						res := rw.Finish()
+						d := refcodec.DecodeResponse(protocol, stream, res.Status, res.Header, res.Body, res.Trailer, svc.RefAlgos())
+						detail["status"], detail["error"] = res.Status, d.Err
+						got := len(call.Log.Received)
+						if rel == "within" && (got != 1 || d.Err != nil) {
+							run.Violation(key+"/rejected", fmt.Sprintf("a %d-byte message (compressed to a %d-byte body) was not accepted under a read limit of %d", len(raw), len(body), N), detail)
+						}
+						if rel == "over" && (got != 0 || d.Err == nil || (d.Err.Code != uint32(connect.CodeResourceExhausted) && d.Err.Code != uint32(connect.CodeInvalidArgument))) {
+							run.Violation(key+"/accepted", fmt.Sprintf("a %d-byte message was not rejected (invalid_argument or resource_exhausted) under a read limit of %d", len(raw), N), detail)
+						}
+					}
+				}
+			}
+		}
+	}
+}
